@@ -13,8 +13,19 @@ def hexb(b):
 
 
 def parse_hex(tok):
+    """B<hex> = the bytes; P<len>:<hex> = the pattern repeated / truncated to <len> bytes (compact form for large
+    periodic inputs, understood by the harness and the model driver alike)."""
+    if tok[0] == "P":
+        n, pat = tok[1:].split(":", 1)
+        n = int(n)
+        pat = bytes.fromhex(pat) or b"\0"
+        return (pat * (n // len(pat) + 1))[:n]
     assert tok[0] == "B", tok[:20]
     return bytes.fromhex(tok[1:])
+
+
+def ptok(n, pattern):
+    return "P%d:%s" % (n, bytes(pattern).hex())
 
 
 def fnv64(b):
@@ -54,8 +65,9 @@ def expand(tokens):
                 start = len(out) - d
                 out += out[start:start + ln]
             else:
-                for _ in range(ln):          # overlapping copy, byte by byte
-                    out.append(out[-d])
+                # overlapping copy: byte by byte it repeats the last d bytes with period d
+                chunk = bytes(out[-d:])
+                out += (chunk * (ln // d + 1))[:ln]
     return bytes(out)
 
 
@@ -138,8 +150,30 @@ def walk(s, pos=0, keep_tokens=True, limit=None):
     return ver, size, toks, produced, pos
 
 
+_BIG_PARSES = {}
+
+
 def strict_parse(s, want_ver=None):
-    """Well-formedness in the sense of C08/C09: -> (version, size, tokens).  Raises Bad."""
+    """Well-formedness in the sense of C08/C09: -> (version, size, tokens).  Raises Bad.
+    (Results for streams above 100 KB are memoised: the 16 MiB boundary cases are looked at by oracle() and
+    nontrivial() for each build profile, and a parse of a 2 MB LZ10 stream takes seconds.)"""
+    if len(s) <= 100000:
+        return _strict_parse(s, want_ver)
+    key = (bytes(s), want_ver)
+    if key not in _BIG_PARSES:
+        if len(_BIG_PARSES) >= 6:
+            _BIG_PARSES.clear()
+        try:
+            _BIG_PARSES[key] = (True, _strict_parse(s, want_ver))
+        except Bad as e:
+            _BIG_PARSES[key] = (False, e)
+    ok, r = _BIG_PARSES[key]
+    if ok:
+        return r
+    raise r
+
+
+def _strict_parse(s, want_ver=None):
     ver, size, toks, produced, pos = walk(s)
     if want_ver is not None and ver != want_ver:
         raise Bad("unknown-type", "expected LZ%d" % want_ver)
@@ -360,6 +394,14 @@ def long_compressible_inputs(rng, tier):
     return out
 
 
+def size_boundary_inputs(kind, rng):
+    b = rng.getrandbits(8)
+    out = [((1 << 24) - 1, bytes([b])), ((1 << 24) - 2, bytes([b, b ^ 0x55, 7]))]
+    if kind.startswith("lz13"):
+        out += [(1 << 24, bytes([b])), ((1 << 24) + 1, bytes([b ^ 0xFF, b]))]
+    return out
+
+
 def stretch_inputs(data):
     """Escalation of a correspondence difference that is not (yet) an oracle failure: the same input made
     long - repeated as a whole, and with its longest run / its tail period continued - up to the lengths at
@@ -478,6 +520,12 @@ def compress_inputs(rng, tier, kind, hdr_flag_small):
             cases.append(Case("%s 3 %s" % (kind, hexb(data)), "long-compressible-" + name))
         else:
             add(data, "long-compressible-" + name, model=False)
+    # the 16 MiB boundary of the property ("every input shorter than 16 MiB"): 2^24-2 and 2^24-1 bytes must compress
+    # with a 24-bit size of 0xFFFFFE / 0xFFFFFF; LZ13 also 2^24 and 2^24+1 (extended size form, theorem
+    # C09_round_trip_below_4GiB).  Highly compressible data (run / short period), compact P<len>:<pattern> token,
+    # implementation + oracle only (seeded change C08-4: a size guard `>= 0xFFFFFF`)
+    for n, pat in size_boundary_inputs(kind, rng):
+        cases.append(Case("%s 0 %s" % (kind, ptok(n, pat)), "size-boundary-16MiB"))
     # the same entry points through the enum CompressionFormat (kind lz10f / lz13f): a slice of the family
     fkind = kind[:-1] + "f"
     for b in small_alphabet_exhaustive((0x61, 0x62), 7 if tier == "quick" else 10):
@@ -512,6 +560,15 @@ def spread_heavy(cases, weight=lambda c: len(c.line)):
     for i in range(k):
         out += light[i * per:(i + 1) * per] + buckets[i]
     return out
+
+
+def shrink_ptok(tok):
+    """Shrink candidates of a compact P<len>:<pattern> input: shorter lengths, same pattern (tokens, not bytes)."""
+    n, pat = tok[1:].split(":", 1)
+    n = int(n)
+    for k in (n // 2, n - 65536, n - 4096, n - 18, n - 2, n - 1):
+        if 0 <= k < n:
+            yield "P%d:%s" % (k, pat)
 
 
 def shrink_bytes(data):
@@ -550,7 +607,7 @@ class LZCheckMixin:
         parts = case.line.split(" ")
         kind = parts[0]
         flag = parts[2] if kind == "lzd" else parts[1]
-        if flag == "0":
+        if flag == "0" or (kind == "lzd" and flag == "2"):
             return model_out == "SKIP"
         if impl_out == model_out:
             return True
